@@ -52,6 +52,7 @@ import CtyModel.Lemmas.JsonValRT
 import CtyModel.Lemmas.d15Implied
 import CtyModel.Lemmas.d15Mirror
 import CtyModel.Lemmas.d15Emit
+import CtyModel.Lemmas.d15DocU
 import CtyModel.Lemmas.JsonValStrip
 import CtyModel.Lemmas.JsonValNoOpt
 import CtyModel.Lemmas.JsonValReject
@@ -362,8 +363,9 @@ example :
 representable numbers and no conflicting duplicate keys the implied type is the document's
 structural type, unmarshalling with it succeeds and re-marshalling gives the same document
 up to key order, number spelling and string normalization"), for an idempotent `norm`.
-NOT PROVED in this generality (unsorted keys, duplicates with equal types) and, since /repo
-5aa0ac9, no counterexample is known: the former one (`{"e\u0301": null}`) now passes, see
+PROVED for keys in any order as long as no object repeats a key (`doc_roundtrip_any_key_order`);
+NOT PROVED for objects repeating a key with members of equal type; since /repo
+5aa0ac9 no counterexample is known: the former one (`{"e\u0301": null}`) now passes, see
 `doc_roundtrip_nonNFC_key`.  The harness evaluates this check on every generated document. -/
 def doc_roundtrip : Prop :=
   ∀ (env : JEnv) (d : Json), (∀ s, env.norm (env.norm s) = env.norm s) →
@@ -394,6 +396,63 @@ theorem doc_roundtrip_partial_check (env : JEnv) (d : Json) (h : docOK env d = t
     docCheck env d = true := by
   obtain ⟨hi, v, d', hu, _, hm, he⟩ := doc_roundtrip_partial env d h
   simp [docCheck, hi, hu, hm, he]
+
+/-- an idempotent environment with one non-trivial normal form ("e" + combining acute ↦ "é") -/
+def envNFC0 : JEnv :=
+  { norm := fun s => if s = "e\u0301" then "\u00e9" else s, hkey := fun _ _ => none }
+
+/-- KEYS IN ANY ORDER (audit C15 item 1, missing theorem (a)).  `docOK` above wants the keys of
+every object already sorted, which almost no real document is (`{"b":1,"a":2}` fails it).
+This is the statement without that demand: for every document (any depth) in which the
+normal forms of the keys of each object are DISTINCT — in any order — and whose numbers are
+representable, and an idempotent `norm`: the implied type IS the structural type (`structTyU`:
+the object type over the sorted normalised keys), unmarshalling with it succeeds, the value
+has exactly that type, and re-marshalling returns the same document up to key order, number
+spelling and string normalisation (`canon` sorts the members and normalises keys and strings,
+`jsonEquiv` compares numbers as 512-bit parses) — the check `docCheckFull` of the full
+statement.  What is still NOT proved of `doc_roundtrip`: objects that REPEAT a key with
+members of equal type (the harness searches those on every run). -/
+theorem doc_roundtrip_any_key_order (env : JEnv) (d : Json)
+    (hid : ∀ s, env.norm (env.norm s) = env.norm s) (h : docOKU env d = true) :
+    impliedType env d = .ok (structTyU env.norm d) ∧
+    ∃ v d', unmarshalTop env d (structTyU env.norm d) = .ok v ∧ v.ty = structTyU env.norm d ∧
+      marshal env v (structTyU env.norm d) = .ok d' ∧ jsonEquiv (canon env d') (canon env d) = true := by
+  obtain ⟨p, d', hi, hu, hm, hk, hmar, he⟩ := doc_rtU env hid d h
+  have hu' : unmarshalTop env d (structTyU env.norm d) = .ok ⟨structTyU env.norm d, p⟩ := by
+    unfold unmarshalTop
+    rw [stripOpt_id_of_noOpt _ (structTyU_noOpt env.norm d)]
+    exact hu
+  refine ⟨hi, ⟨structTyU env.norm d, p⟩, d', hu', rfl, ?_, he⟩
+  unfold marshal
+  rw [marshalEntry_same (structTyU env.norm d) p _ hm hk]
+  exact hmar
+
+/-- the same, as the check of the full statement that the harness evaluates on every document -/
+theorem doc_roundtrip_any_key_order_check (env : JEnv) (d : Json)
+    (hid : ∀ s, env.norm (env.norm s) = env.norm s) (h : docOKU env d = true) :
+    docCheckFull env d = true := by
+  obtain ⟨hi, v, d', hu, _, hm, he⟩ := doc_roundtrip_any_key_order env d hid h
+  simp [docCheckFull, hi, hu, hm, he]
+
+/-- … and with the code's `ImpliedType` / `SimpleJSONValue` (nesting limit, see below) -/
+theorem doc_roundtrip_any_key_order_go (env : JEnv) (d : Json)
+    (hid : ∀ s, env.norm (env.norm s) = env.norm s) (h : docOKU env d = true)
+    (hd : nest d ≤ Generated.jsonMaxImpliedTypeDepth) :
+    impliedTypeGo env d = .ok (structTyU env.norm d) ∧
+    ∃ v d', simpleUnmarshalGo env d = .ok v ∧ v.ty = structTyU env.norm d ∧
+      marshal env v (structTyU env.norm d) = .ok d' ∧ jsonEquiv (canon env d') (canon env d) = true := by
+  obtain ⟨hi, v, d', hu, hty, hm, he⟩ := doc_roundtrip_any_key_order env d hid h
+  have hg : impliedTypeGo env d = impliedType env d := impliedTypeD_eq env _ d 0 (by omega)
+  refine ⟨hg.trans hi, v, d', ?_, hty, hm, he⟩
+  simp [simpleUnmarshalGo, hg, hi, hu]
+
+/-- the audit's document `{"b":1,"a":2}` and a nested one with unsorted keys at two levels, a
+non-NFC key, a null, an empty object and a fraction meet the hypothesis (and fail `docOK`);
+a repeated key does not -/
+example : docOKU env0 (.obj ["b", "a"] [.num "1", .num "2"]) = true ∧
+    docOK env0 (.obj ["b", "a"] [.num "1", .num "2"]) = false ∧
+    docOKU envNFC0 (.obj ["z", "e\u0301", "a"] [.obj ["y", "x"] [.null, .obj [] []], .num "1.50", .arr [.str "s"]]) = true ∧
+    docOKU env0 (.obj ["a", "a"] [.num "1", .num "2"]) = false := by decide +kernel
 
 /-- an environment in which "e" + combining acute normalises to "é" (as NFC does) -/
 def envNFC : JEnv :=
